@@ -94,15 +94,17 @@ func checkLayoutSiblings(p *Program, r *Report, rule string) {
 				return
 			}
 			_, fv, fa := fieldOfAddr(st.Addr)
-			if fa == nil || !isNamed(fa.X.Type(), triePath, "querySession") {
+			if fa == nil || !isSessionType(fa.X.Type()) {
 				return
 			}
 			if _, isParam := fa.X.(*ssa.Parameter); !isParam {
 				return
 			}
-			switch fv.Name() {
-			case "from", "to", "bm", "wordSize":
-				nl.stores[fv.Name()] = append(nl.stores[fv.Name()], e.eval(st.Val).String())
+			// roles, not names: see sessinfo.go
+			for role, name := range map[string]string{"from": curSess.from, "to": curSess.to, "bm": curSess.bm, "wordSize": curSess.wordSize} {
+				if fv.Name() == name {
+					nl.stores[role] = append(nl.stores[role], e.eval(st.Val).String())
+				}
 			}
 		})
 		if len(nl.stores["from"]) == 0 {
@@ -215,21 +217,34 @@ func checkLayoutSiblings(p *Program, r *Report, rule string) {
 		}
 	}
 	// derived constants
-	if iv := p.Method(p.Trie, "SlimTrie", "initVars"); iv != nil {
-		r.Func(shortFn(iv))
+	// (whatever function and record type hold them: found by the stores to the three fields)
+	{
 		e := newEval(p)
 		got := map[string]string{}
-		instrsOf(iv, func(_ *ssa.BasicBlock, in ssa.Instruction) {
-			if st, ok := in.(*ssa.Store); ok {
-				if _, fv, fa := fieldOfAddr(st.Addr); fa != nil && isNamed(fa.X.Type(), triePath, "slimVars") {
-					got[fv.Name()] = e.eval(st.Val).String()
-				}
+		var where *ssa.Function
+		for _, f := range p.FuncsOf(triePath) {
+			if !trieScope(f) || f.Synthetic != "" {
+				continue
 			}
-		})
-		ok := got["BigInnerOffset"] == "mul(240,Slim.BigInnerCnt)" && got["ShortMinusInner"] == "add(-17,Slim.ShortSize)" && got["ShortMask"] == "mask(Slim.ShortSize)"
-		r.Check(ok, "derived layout constants", p.Pos(iv.Pos()), "BigInnerOffset=(257-17)*BigInnerCnt, ShortMinusInner=ShortSize-17, ShortMask=mask(ShortSize)", fmt.Sprintf("got %v", got))
-	} else {
-		r.Unk("derived layout constants", "", "initVars not found")
+			instrsOf(f, func(_ *ssa.BasicBlock, in ssa.Instruction) {
+				if st, ok := in.(*ssa.Store); ok {
+					if _, fv, fa := fieldOfAddr(st.Addr); fa != nil {
+						switch fv.Name() {
+						case "BigInnerOffset", "ShortMinusInner", "ShortMask":
+							got[fv.Name()] = e.eval(st.Val).String()
+							where = f
+						}
+					}
+				}
+			})
+		}
+		if where != nil {
+			r.Func(shortFn(where))
+			ok := got["BigInnerOffset"] == "mul(240,Slim.BigInnerCnt)" && got["ShortMinusInner"] == "add(-17,Slim.ShortSize)" && got["ShortMask"] == "mask(Slim.ShortSize)"
+			r.Check(ok, "derived layout constants", p.Pos(where.Pos()), "BigInnerOffset=(257-17)*BigInnerCnt, ShortMinusInner=ShortSize-17, ShortMask=mask(ShortSize)", fmt.Sprintf("got %v", got))
+		} else {
+			r.Unk("derived layout constants", "", "no function stores BigInnerOffset / ShortMinusInner / ShortMask")
+		}
 	}
 	// builder's (word size, bitmap size) pairs
 	entry := p.Trie.Func("NewSlimTrie")
